@@ -1019,3 +1019,61 @@ Proof.
   rewrite wire_no_gso, Hd; [reflexivity|].
   rewrite Forall_forall in *. intros m Hm. apply (Hall m Hm).
 Qed.
+
+(* ------------------------------------------------------------------ *)
+(* glue: the pooled destination address                                 *)
+(* ------------------------------------------------------------------ *)
+
+Definition apool_ok (p : apool) : Prop := length (ap_buf p) = 16%nat /\ (ap_len p = 4%nat \/ ap_len p = 16%nat).
+Definition req_ok (x : bool * list N) : Prop := length (snd x) = (if fst x then 16 else 4)%nat.
+
+Lemma copy_n_full n (buf src : list N) :
+  (length src <= n)%nat -> (length src <= length buf)%nat ->
+  copy_n n buf src = src ++ skipn (length src) buf.
+Proof. intros H1 H2. unfold copy_n. rewrite Nat.min_r by exact H1. now rewrite firstn_all. Qed.
+
+Lemma store4_ok p a : apool_ok p -> length a = 4%nat -> apool_ok (store4 p a) /\ ap_ip (store4 p a) = a.
+Proof.
+  intros [Hb Hl] Ha. unfold store4, ap_ip, apool_ok. cbn [ap_buf ap_len].
+  rewrite copy_n_full by (destruct Hl; lia). split.
+  - split; [|left; reflexivity]. rewrite app_length, skipn_length. lia.
+  - rewrite <- Ha at 1. rewrite firstn_app, firstn_all, Nat.sub_diag. cbn [firstn]. now rewrite app_nil_r.
+Qed.
+
+Lemma store6_ok p a : apool_ok p -> length a = 16%nat -> apool_ok (store6 p a) /\ ap_ip (store6 p a) = a.
+Proof.
+  intros [Hb Hl] Ha. unfold store6, ap_ip, apool_ok. cbn [ap_buf ap_len].
+  rewrite copy_n_full by lia. split.
+  - split; [|right; reflexivity]. rewrite app_length, skipn_length. lia.
+  - rewrite <- Ha at 1. rewrite firstn_app, firstn_all, Nat.sub_diag. cbn [firstn]. now rewrite app_nil_r.
+Qed.
+
+(* repaired order: whatever the pooled object went through, every Send hands
+   the kernel exactly the address of its endpoint *)
+Theorem addr_history_correct : forall h p,
+  apool_ok p -> Forall req_ok h -> addr_history store6 p h = map snd h.
+Proof.
+  induction h as [|[is6 a] r IH]; intros p Hp Hh; [reflexivity|].
+  inversion Hh as [|? ? Ha Hr]; subst. unfold req_ok in Ha. cbn [fst snd] in Ha.
+  cbn [addr_history map snd]. destruct is6.
+  - destruct (store6_ok p a Hp Ha) as [Hp' He]. rewrite He. f_equal. apply IH; assumption.
+  - destruct (store4_ok p a Hp Ha) as [Hp' He]. rewrite He. f_equal. apply IH; assumption.
+Qed.
+
+Lemma apool_new_ok : apool_ok apool_new.
+Proof. split; [reflexivity|right; reflexivity]. Qed.
+
+(* /repo HEAD: an IPv6 Send after an IPv4 Send on the same pooled object
+   overwrites only 4 bytes; bytes 4..15 are those of the previous IPv6
+   destination: fd00::2, 127.0.0.1, ::1  goes to  ::2 *)
+Definition ex_fd : list N := [253;0;0;0;0;0;0;0;0;0;0;0;0;0;0;2].
+Definition ex_lo6 : list N := [0;0;0;0;0;0;0;0;0;0;0;0;0;0;0;1].
+Definition ex_lo4 : list N := [127;0;0;1].
+Definition ex_hist : list (bool * list N) := [(true, ex_fd); (false, ex_lo4); (true, ex_lo6)].
+
+Theorem addr_history_old_refuted :
+  exists h, Forall req_ok h /\ addr_history old_store6 apool_new h <> map snd h /\
+    addr_history old_store6 apool_new h = [ex_fd; ex_lo4; [0;0;0;0;0;0;0;0;0;0;0;0;0;0;0;2]].
+Proof.
+  exists ex_hist. split; [repeat constructor|]. split; [vm_compute; discriminate|vm_compute; reflexivity].
+Qed.
